@@ -1,5 +1,5 @@
 #!/bin/bash
-for p in C01 C02 C03 C04 C05 C06 C08 C09 C10 C11 C12 C13 C14 C15 C16 C17 C18 C19; do
+for p in ${@:-C01 C02 C03 C04 C05 C06 C07 C08 C09 C10 C11 C12 C13 C14 C15 C16 C17 C18 C19}; do
   s=$(date +%s); ./check $p --tier thorough --seed 1 > th_$p.log 2>&1; rc=$?; e=$(date +%s)
-  echo "$p rc=$rc secs=$((e-s)) $(tail -n 1 th_$p.log | cut -c1-200)"
+  echo "$p rc=$rc secs=$((e-s)) $(grep -c '^KNOWN-FINDING' th_$p.log) known; $(tail -n 1 th_$p.log | cut -c1-200)"
 done
